@@ -126,7 +126,8 @@ def coq_rows(cases):
 MIRROR = {"arithmetic.int.igt_s": "arithmetic.int.ilt_s", "arithmetic.int.ige_s": "arithmetic.int.ile_s",
           "arithmetic.int.igt_u": "arithmetic.int.ilt_u", "arithmetic.int.ige_u": "arithmetic.int.ile_u",
           "arithmetic.float.fgt": "arithmetic.float.flt", "arithmetic.float.fge": "arithmetic.float.fle"}
-SYMM = {"arithmetic.int.ieq", "arithmetic.int.ine", "arithmetic.float.feq", "arithmetic.float.fne", "call:__eq__", "call:__ne__"}
+SYMM = {"arithmetic.int.ieq", "arithmetic.int.ine", "arithmetic.float.feq", "arithmetic.float.fne", "call:__eq__", "call:__ne__",
+        "tket.bool.eq", "tket.bool.and", "tket.bool.or", "tket.bool.xor"}
 
 
 def parse_term(t, i=0):
